@@ -38,6 +38,20 @@ def allowed(op_path, kind, name, args, used_paths):
     return True
 
 
+def gen_rejected_op(rg, kind, attr_family):
+    """An operation with forbidden input (C11 next to concurrency: validation must not be skipped under any interleaving)."""
+    badkey = {"$keydict": [[987654, 1]]}
+    if kind == "dict":
+        ops = [("setitem", ["bad", {"$obj": "object"}]), ("update", [badkey]), ("setdefault", ["newbad", {"$obj": "set"}]), ("setitem", ["nb", badkey])]
+        if attr_family:
+            ops += [("setitem", ["dotted.key", 5]), ("update", [{"x.y": 1}]), ("setitem", ["nd", {"in.ner": 1}])]
+    else:
+        ops = [("append", [{"$obj": "object"}]), ("append", [badkey]), ("insert", [0, {"$obj": "complex"}]), ("extend", [[badkey]])]
+        if attr_family:
+            ops += [("append", [{"dotted.key": 1}])]
+    return ops[rg.randrange(len(ops))]
+
+
 def gen_thread_op(rg, fresh, kind, c, readers=False, mut_only=True):
     """(name, args) for a concurrent program; c is the initial model value at the handle (for keys/indices)."""
     if kind == "dict":
@@ -132,6 +146,8 @@ def execute(cfg, threads_prog, strat_spec, sched_seed, pre_steps, ctx_spec=None,
                     h = w.handles[op["h"]]
                     args = M.dec(op["args"], None)
                     rec = {"t": ti, "i": oi, "h": op["h"], "name": op["name"], "args": op["args"], "inv": sched.step}
+                    if op.get("rejected"):
+                        rec["rejected"] = True
                     sched.in_op[t.tid] = True
                     res = M.lib_apply(h.node, op["name"], args)
                     sched.in_op[t.tid] = False
@@ -205,6 +221,9 @@ def check_linearizable(out, per_file=False):
             return False, s
         margs = M.dec(op["args"], None)
         name = op["name"]
+        if op.get("rejected"):
+            # forbidden input: must be rejected with TypeError/ValueError at any point, changing nothing
+            return ("exc" in op and isinstance(op["exc_obj"].exc, (TypeError, ValueError))), s
         if name == "popitem" and kind == "dict" and "res" in op:
             r = op["res"]
             if not (isinstance(r, list) and len(r) == 2 and r[0] in target and same(target[r[0]], r[1])):
